@@ -501,9 +501,18 @@ def sql_gen(tier):
             cols = ["a", "b", "c"][:len(t)]
             sql = "insert into t(%s) values(%s)" % (",".join(cols), ",".join("?" * len(t)))
             prog = ('import sqlite3; d = sqlite3(path); ok0 = d.exec("drop table if exists t"); ok1 = d.exec("create table t(a,b,c)"); '
-                    'ok2 = d.exec("%s", tup(%s)); q = d.query("select %s from t"); nrows = q.count(); cl = d.close();' % (
-                        sql, ", ".join(v[0] for v in t), ",".join(cols + ["typeof(%s)" % c for c in cols])))
-            ops = ["isolate", op_ctx(0, True), "rmfile %s" % hx(path), op_setvar("PATH", "s" + path.encode().hex())] + SQL_SET + [op_run(prog), op_dump(0, "OK1,OK2,Q,NROWS")]
+                    'ok2 = d.exec("%s", tup(%s)); q = d.query("select %s from t"); nrows = q.count(); '
+                    # the same values through a prepared statement: bind + execute into a second table, fetch from the first
+                    'ok3 = d.exec("create table t2(a,b,c)"); p2 = d.prepare("%s"); b2 = d.bind(tup(%s)); '
+                    # statements between bind and execute: the bound tuple was a temporary, its memory is reused by now
+                    'zz = "x" + "another-temporary-string-that-reuses-the-memory-0000" + str(123456789); w = tab(10, "zzzzzzzzzzzzzzzzzzzzzzzzzzzzzzzzzzzzzzzzzzzz"); '
+                    'e2 = d.execute(); z2 = d.finalize(); '
+                    'q2 = d.query("select %s from t2"); p1 = d.prepare("select %s from t"); e1 = d.execute(); rv = tup(); f1 = d.fetch(rv); '
+                    'rv2 = tup(); f2 = d.fetch(rv2); z1 = d.finalize(); cl = d.close();' % (
+                        sql, ", ".join(v[0] for v in t), ",".join(cols + ["typeof(%s)" % c for c in cols]),
+                        sql.replace("into t(", "into t2("), ", ".join(v[0] for v in t), ",".join(cols + ["typeof(%s)" % c for c in cols]),
+                        ",".join(cols + ["typeof(%s)" % c for c in cols])))
+            ops = ["isolate", op_ctx(0, True), "rmfile %s" % hx(path), op_setvar("PATH", "s" + path.encode().hex())] + SQL_SET + [op_run(prog), op_dump(0, "OK1,OK2,Q,NROWS,Q2,RV,F1,F2,P1,P2,B2,E1,E2")]
             yield Case("s%d" % n, ops, {"kind": "sql", "vals": [[v[1][0], v[1][1].hex() if isinstance(v[1][1], bytes) else (v[1][1].hex() if isinstance(v[1][1], float) else v[1][1])] for v in t],
                                         "exprs": [v[0] for v in t], "path": path})
             n += 1
@@ -591,6 +600,27 @@ def check_sql(case, res, vs):
             okk = item[0] == "N"
         if not okk:
             vs.append(Violation("sqlite3:query-value:%s" % cls, "%s: item %d read back by query() as %r, bound %r" % (where, i + 1, item, v), case))
+    # the prepared-statement path: what bind() + execute() stored (read by query) and what fetch() hands back equal what query() gave
+    for name in ("P1", "P2", "B2", "E1", "E2", "F1"):
+        if dump.get(name) != "boolean=b1":
+            vs.append(Violation("sqlite3:prepared-status:%s" % name.lower(), "%s: %s is %s" % (where, name, dump.get(name)), case))
+    if dump.get("F2") != "boolean=b0":
+        vs.append(Violation("sqlite3:fetch-past-end", "%s: a second fetch returned %s for a table of one row" % (where, dump.get("F2")), case))
+    try:
+        row2 = parse_symbol(dump["Q2"])[2][2][0][2]
+        rowf = parse_symbol(dump["RV"])[2][2]
+    except Exception as e:
+        row2 = rowf = None
+        vs.append(Violation("sqlite3:prepared-dump", "%s: cannot read %r / %r (%s)" % (where, dump.get("Q2"), dump.get("RV"), e), case))
+    if row2 is not None:
+        for i in range(2 * n):
+            if repr(row2[i]) != repr(row[i]):
+                vs.append(Violation("sqlite3:bind-value:%s" % want[i % n][0], "%s: item %d bound to a prepared statement reads back as %r, through exec as %r" % (where, i % n + 1, row2[i], row[i]), case))
+                break
+        for i in range(2 * n):
+            if repr(rowf[i]) != repr(row[i]):
+                vs.append(Violation("sqlite3:fetch-value:%s" % want[i % n][0], "%s: item %d fetched as %r, query() gives %r" % (where, i % n + 1, rowf[i], row[i]), case))
+                break
     # independent reader (Python sqlite3) - executed by the driver process? no: by this checker, from the rows captured by the 'sqlread' step
     if rows is None:
         vs.append(Violation("sqlite3:independent-reader", "%s: the database file could not be read: %s" % (where, st[-1]), case))
